@@ -220,6 +220,19 @@ def has_derivative(tree):
     return all(has_derivative(s) for s in tree[1:] if isinstance(s, list))
 
 
+def has_jacobian(tree):
+    """the composition has an analytic Jacobian at all: the offset and the inversion of a model need that model's
+    derivative w.r.t. the independent variable, which twlc_force does not provide (Model.has_jacobian is then false,
+    jacobian() returns None and fits fall back to finite differences) — such trees are outside the property"""
+    t = tree[0]
+    if t in ("base", "efjc_f", "twlc_f"):
+        return True
+    subs = [s for s in tree[1:] if isinstance(s, list)]
+    if t in ("off", "inv") and not has_derivative(subs[0]):
+        return False
+    return all(has_jacobian(s) for s in subs)
+
+
 # ------------------------------------------------------------------ plain-Python specification of a composition
 
 
@@ -369,17 +382,35 @@ def in_band(kind, x, args, margin=3.0):
 
 
 def richardson(fn, x, h):
-    """central differences with steps h, h/2, h/4, h/8, extrapolated; returns (derivative, error estimate)"""
-    rows = []
+    """central differences with steps h, h/2, h/4, h/8, extrapolated; returns (derivative, error estimate).  The error
+    estimate includes `jump_estimate`: a numerical derivative is only accepted where the function is numerically
+    differentiable (a sample placed exactly on a regime boundary gives a perfectly 'converged' central difference —
+    the mean of the two one-sided slopes)"""
+    rows, ends = [], []
     for k in range(4):
         hk = h / (2**k)
-        row = [(fn(x + hk) - fn(x - hk)) / (2 * hk)]
+        up, dn = fn(x + hk), fn(x - hk)
+        ends.append((hk, up, dn))
+        row = [(up - dn) / (2 * hk)]
         for j in range(1, k + 1):
             row.append(row[j - 1] + (row[j - 1] - rows[k - 1][j - 1]) / (4**j - 1))
         rows.append(row)
     best = rows[3][3]
     err = max(abs(rows[3][3] - rows[3][2]), abs(rows[3][3] - rows[2][2]))
-    return best, err + noise_of(fn, x) / (h / 8) * 4
+    return best, err + noise_of(fn, x) / (h / 8) * 4 + JUMP_WEIGHT * jump_estimate(fn(x), ends)
+
+
+JUMP_WEIGHT = 0.05  # on a kink with slope jump J the central difference is off by at most J/2 from either one-sided
+#                     derivative; `judge` abstains when err > 1e-7 mag and tolerates 10 err = J/2 otherwise
+
+
+def jump_estimate(f0, ends):
+    """difference between the right and the left derivative: D(h) = (f(x+h) - 2 f(x) + f(x-h)) / h is (right slope -
+    left slope) + f'' h + O(h^3), so 2 D(h/2) - D(h) is the jump J of the slope up to O(h^3) (0 for a smooth function).
+    Taken from the two largest and from the two smallest steps; the smaller one counts (the large steps are limited
+    by truncation, the small ones by rounding noise; at a kink both are ~|J|).  Works on floats and on arrays."""
+    D = [(up - 2 * f0 + dn) / hk for hk, up, dn in ends]
+    return np.minimum(np.abs(2 * D[1] - D[0]), np.abs(2 * D[3] - D[2]))
 
 
 def noise_of(fn, x):
@@ -543,10 +574,12 @@ def numeric_fit_jacobian(fit, vec):
 
 
 def richardson_vec(fn, x, h):
-    rows = []
+    rows, ends = [], []
     for k in range(4):
         hk = h / (2**k)
-        row = [(fn(x + hk) - fn(x - hk)) / (2 * hk)]
+        up, dn = fn(x + hk), fn(x - hk)
+        ends.append((hk, up, dn))
+        row = [(up - dn) / (2 * hk)]
         for j in range(1, k + 1):
             row.append(row[j - 1] + (row[j - 1] - rows[k - 1][j - 1]) / (4**j - 1))
         rows.append(row)
@@ -555,7 +588,7 @@ def richardson_vec(fn, x, h):
     d = max(abs(x), 1e-3) * 2.0**-33
     v = [fn(x + k * d) for k in range(6)]
     noise = np.max([np.abs(v[k] - 2 * v[k + 1] + v[k + 2]) for k in range(4)], axis=0) / 2
-    return best, err + noise / (h / 8) * 4
+    return best, err + noise / (h / 8) * 4 + JUMP_WEIGHT * jump_estimate(fn(x), ends)
 
 
 def assoc_tokens(d):
@@ -1073,11 +1106,20 @@ def gen_x(rng, kind, pd, name):
             hi = 0.8 * (-g("g0") + math.sqrt(g("St") * g("C"))) / g("g1")
         if kind == "ms_d":
             hi = 30.0
-        style = rng.randint(0, 3)
+        style = rng.randint(0, 4)
         if style == 0:
             return float(rng.loguniform(0.05, hi))
         if style == 1 and kind == "twlc_d":
             return float(g("Fc") * (1 + rng.choice([-1, 1]) * rng.loguniform(0.01, 0.3)))
+        if style == 4 and kind == "twlc_d":
+            # ON the boundary between the two coupling regimes (f == Fc bit for bit: both comparisons of the code
+            # see equality), one ulp beside it, or very close to it
+            c = rng.randint(0, 3)
+            if c <= 1:
+                return float(g("Fc"))
+            if c == 2:
+                return float(math.nextafter(g("Fc"), rng.choice([-math.inf, math.inf])))
+            return float(g("Fc") * (1 + rng.choice([-1, 1]) * rng.loguniform(1e-12, 1e-2)))
         return float(rng.uniform(0.05, hi))
     if kind in ("offset_f",):
         return float(rng.uniform(0.1, 10.0))
@@ -1123,6 +1165,8 @@ def gen_tree(rng, indep, depth, counter, allow_inv=True):
         k = rng.randint(0, 3)
         if k == 0:
             return ["efjc_f", fresh()]
+        if k == 1:
+            return ["twlc_f", fresh()]
         return ["inv", ["base", rng.choice(["odijk_d", "ems_d", "efjc_d", "twlc_d", "ms_d"]), fresh()]]
     return ["base", rng.choice(DIST_KINDS[:5] if indep == "f" else FORCE_KINDS[:3]), fresh()]
 
@@ -1131,10 +1175,14 @@ def case_depth_top(depth, counter):
     return -1  # offsets are allowed everywhere (an offset alone is a legal model)
 
 
-def gen_tree_case(rng, depth=2, allow_inv=True, tree=None):
+def gen_tree_case(rng, depth=2, allow_inv=True, tree=None, kink=False, kT=None):
     indep = rng.choice(["f", "d"])
     for _ in range(20):
         t = tree or gen_tree(rng, indep, depth, [0], allow_inv)
+        if not has_jacobian(t):
+            if tree is not None:
+                return None
+            continue
         if tree is not None:
             indep = indep_of(t)
         ls = leaves(t)
@@ -1151,12 +1199,73 @@ def gen_tree_case(rng, depth=2, allow_inv=True, tree=None):
                     add_off(s)
 
         add_off(t)
+        if kT is not None and "kT" in pd:
+            pd["kT"] = float(kT)
         # abscissa: from the first non-offset leaf of the outermost level that shares the independent variable
         x = pick_x(rng, t, pd)
+        if kink:
+            x = kink_abscissa(rng, t, pd)
         if x is None or not math.isfinite(x):
             continue
         return {"op": "tree", "tree": t, "x": float(x), "params": pd}
     return None
+
+
+def unshift(x, off):
+    """y with y - off == x in floating point where such a y exists (so that an abscissa chosen ON a regime boundary of
+    the wrapped model is still on it after the offset model has subtracted its offset), else the nearest one"""
+    y = x + off
+    for cand in (y, math.nextafter(y, math.inf), math.nextafter(y, -math.inf)):
+        if cand - off == x:
+            return cand
+    return y
+
+
+def twlc_paths(tree, offs=()):
+    """(leaf name, names of the offsets subtracted from the abscissa on the way down) of the twistable-WLC leaves that
+    are evaluated at the composition's own abscissa (not under an inversion)"""
+    t = tree[0]
+    if t == "base":
+        return [(tree[2], offs)] if tree[1] == "twlc_d" else []
+    if t == "add":
+        return twlc_paths(tree[1], offs) + twlc_paths(tree[2], offs)
+    if t == "off":
+        return twlc_paths(tree[1], offs + (f"{tree_name(tree[1])}/{indep_of(tree[1])}_offset",))
+    return []
+
+
+def on_kink(tree, x, pd):
+    """some twistable-WLC leaf of the composition is evaluated exactly at its critical force"""
+    for name, offs in twlc_paths(tree):
+        v = x
+        for o in offs:
+            v = v - pd[o]
+        if v == pd[f"{name}/Fc"]:
+            return True
+    return False
+
+
+def near_kink(tree, x, pd, rel):
+    for name, offs in twlc_paths(tree):
+        v = x
+        for o in offs:
+            v = v - pd[o]
+        if abs(v - pd[f"{name}/Fc"]) <= rel * abs(pd[f"{name}/Fc"]):
+            return True
+    return False
+
+
+def kink_abscissa(rng, tree, pd):
+    """an abscissa at which one twistable-WLC leaf of the composition is evaluated EXACTLY at its critical force (None
+    if the tree has no such leaf / no float does it)"""
+    paths = twlc_paths(tree)
+    if not paths:
+        return None
+    name, offs = rng.choice(paths)
+    x = pd[f"{name}/Fc"]
+    for o in reversed(offs):
+        x = unshift(x, pd[o])
+    return float(x) if on_kink(tree, x, pd) else None
 
 
 def pick_x(rng, t, pd):
@@ -1166,7 +1275,12 @@ def pick_x(rng, t, pd):
         return gen_x(rng, t[1], pd, t[2])
     if kind in ("efjc_f", "twlc_f", "inv"):
         sub = t[1] if kind == "inv" else ["base", "efjc_d" if kind == "efjc_f" else "twlc_d", t[1]]
-        F = pick_x(rng, sub, pd)
+        for _ in range(8):
+            # under an inversion a force (almost) on the regime boundary of a twistable leaf makes EVERY derivative
+            # of the inverse one-sided (each parameter moves the solved force across it): nothing to judge there
+            F = pick_x(rng, sub, pd)
+            if F is None or not near_kink(sub, F, pd, 1.0e-4):
+                break
         if F is None:
             return None
         try:
@@ -1175,7 +1289,7 @@ def pick_x(rng, t, pd):
             return None
     if kind == "off":
         x = pick_x(rng, t[1], pd)
-        return None if x is None else x + pd[f"{tree_name(t[1])}/{indep_of(t[1])}_offset"]
+        return None if x is None else unshift(x, pd[f"{tree_name(t[1])}/{indep_of(t[1])}_offset"])
     if kind == "add":
         # both parts must be valid at the same abscissa: use a force/distance valid for the more restrictive part
         xs = [pick_x(rng, s, pd) for s in t[1:]]
@@ -1269,7 +1383,7 @@ def gen_trans(rng, pn, params, values, tag, allow_dups=True):
     return trans
 
 
-def gen_fit_data(rng, t, pn, params, values, trans, npts):
+def gen_fit_data(rng, t, pn, params, values, trans, npts, kink=False):
     """one data set: abscissas valid for the tree at the (local) parameter values of this data set, ordinates near
     the model value"""
     local = dict(params)
@@ -1288,6 +1402,10 @@ def gen_fit_data(rng, t, pn, params, values, trans, npts):
                 break
     if not xs:
         return None
+    if kink:  # one sample exactly on the regime boundary of a twistable-WLC leaf (at this data set's parameters)
+        xk = kink_abscissa(rng, t, local)
+        if xk is not None and valid_everywhere(t, xk, local):
+            xs[rng.randint(0, len(xs) - 1)] = xk
     ys = []
     for x in xs:
         try:
@@ -1351,7 +1469,7 @@ def gen_fit_case(rng, allow_dups=True, by_pattern=None):
             all_trans = [gen_trans(rng, pn, tc["params"], values, f"{mi_}{di}", allow_dups) for di in range(nd)]
         data = []
         for trans in all_trans:
-            d = gen_fit_data(rng, t, pn, tc["params"], values, trans, rng.randint(1, 3))
+            d = gen_fit_data(rng, t, pn, tc["params"], values, trans, rng.randint(1, 3), kink=rng.chance(0.3))
             if d is None:
                 return None
             data.append(d)
@@ -1371,6 +1489,9 @@ def scope_trans(pn, params, values, lab, styles, tag):
     if style == "id":
         return []
     n = own[-1] if lab == 0 else own[(lab - 1) % max(len(own) - 1, 1)]
+    if style.endswith("Fc"):  # the critical force of the (first) twistable leaf itself is renamed / pinned
+        n = [o for o in own if o.endswith("/Fc")][0]
+        style = style[:-2]
     if style == "pin":
         return [[n, float(params[n] * (1.0 + 0.03 * lab))]]
     new = f"{n}_{tag}c{lab}"
@@ -1378,7 +1499,7 @@ def scope_trans(pn, params, values, lab, styles, tag):
     return [[n, new]]
 
 
-def scope_fit_case(rng, trees, patterns, styles, lengths):
+def scope_fit_case(rng, trees, patterns, styles, lengths, kink=False):
     """the fit whose i-th model is trees[i] with data sets sharing conditions as patterns[i] says; the data set added
     j-th has lengths[j] points (counted over the whole fit, so that blocks of different sizes meet)"""
     models, values = [], {}
@@ -1393,7 +1514,7 @@ def scope_fit_case(rng, trees, patterns, styles, lengths):
         data = []
         for lab in pattern:
             trans = scope_trans(pn, tc["params"], values, lab, styles, f"m{mi_}")
-            d = gen_fit_data(rng, t, pn, tc["params"], values, trans, lengths[j % len(lengths)])
+            d = gen_fit_data(rng, t, pn, tc["params"], values, trans, lengths[j % len(lengths)], kink=kink)
             j += 1
             if d is None or len(d["xs"]) != lengths[(j - 1) % len(lengths)]:
                 return None
@@ -1416,6 +1537,21 @@ def pattern_of(m):
 def noncontiguous(pat):
     """a condition comes back after a different one: the data sets are not simulated in the order they were added"""
     return any(pat[i] != pat[i - 1] and pat[i] in pat[: i - 1] for i in range(2, len(pat)))
+
+
+def fit_on_kink(case):
+    """some data point of the fit is exactly on f == Fc of a twistable leaf at that data set's parameter values"""
+    for m in case["models"]:
+        pn = list(obj_of(m["tree"]).parameter_names)
+        for d in m["data"]:
+            tr = dict((n, v) for n, v in d["trans"])
+            local = {}
+            for n in pn:
+                v = tr.get(n, n)
+                local[n] = case["values"][v] if isinstance(v, str) else v
+            if any(on_kink(m["tree"], x, local) for x in d["xs"]):
+                return True
+    return False
 
 
 def has_dup(case):
@@ -1450,14 +1586,14 @@ def cases(tier, rng):
     # ---- small scope: every built-in model on a grid of abscissas x parameter corners
     grid_x = {"f": [0.05, 0.3, 1.0, 5.0, 15.0, 30.0, 55.0], "d": [0.35, 0.6, 0.8, 0.9, 0.96, 1.0, 1.02]}
     scales = [0.5, 1.0, 1.5] if not quick else [0.7, 1.3]
+    kts = [1.0, 1.2] if quick else [0.92, 1.0, 1.3]  # kT is a parameter like the others: the default 4.11 and away from it
     for kind, (_, indep, args) in KINDS.items():
         if kind.startswith("offset"):
             for x in (0.5, 2.0):
                 for o in (-0.05, 0.0, 0.07):
                     yield {"stream": "small-scope", "op": "base", "kind": kind, "x": x, "p": [o]}
             continue
-        for sLp in scales:
-            for sSt in scales:
+        for sLp, sSt, skT in [(a_, b_, c_) for a_ in scales for b_ in scales for c_ in kts]:
                 for Lc in ((0.5, 16.0) if quick else (0.3, 2.7, 16.0, 30.0)):
                     p = []
                     for a in args:
@@ -1466,10 +1602,18 @@ def cases(tier, rng):
                             v = (1.0 if kind == "efjc_d" else v) * sLp
                         if a == "St":
                             v *= sSt
+                        if a == "kT":
+                            v *= skT
                         if a == "Lc":
                             v = Lc
                         p.append(v)
-                    for gx in grid_x[indep]:
+                    grid = list(grid_x[indep])
+                    if kind == "twlc_d":
+                        # the boundary between the two coupling regimes: exactly on it (both comparisons of the code
+                        # see f == Fc), one ulp and 1e-9 to either side
+                        Fc = DEFAULTS["Fc"]
+                        grid += [Fc, math.nextafter(Fc, math.inf), math.nextafter(Fc, 0.0), Fc * (1 + 1e-9), Fc * (1 - 1e-9)]
+                    for gx in grid:
                         x = gx if indep == "f" else gx * Lc
                         if kind == "ms_f" and gx >= 0.97:
                             continue
@@ -1516,17 +1660,51 @@ def cases(tier, rng):
     trees.append(["off", ["add", ["base", "odijk_d", "DNA"], ["base", "odijk_d", "prot"]]])
     trees.append(["add", ["off", ["base", "odijk_d", "DNA"]], ["off", ["base", "ems_d", "prot"]]])
     trees.append(["inv", ["add", ["base", "odijk_d", "DNA"], ["base", "efjc_d", "ss"]]])
-    if not quick:
-        trees.append(["twlc_f", "DNA"])
+    trees.append(["twlc_f", "DNA"])
+    trees.append(["add", ["twlc_f", "DNA"], ["base", "offset_f", "o"]])
+    trees.append(["add", ["twlc_f", "DNA"], ["base", "odijk_f", "prot"]])
     reps = 1 if quick else 4
     for t in trees:
         for j in range(reps):
-            sub = r0.fork(repr(t) + str(j))
-            c = gen_tree_case(sub, tree=t)
-            if c is None or not valid_everywhere(t, c["x"], c["params"]):
-                continue
-            c["stream"] = "small-scope"
-            yield c
+            for attempt in range(4):
+                sub = r0.fork(repr(t) + str(j) + ("" if attempt == 0 else f".{attempt}"))
+                c = gen_tree_case(sub, tree=t)
+                if c is None or not valid_everywhere(t, c["x"], c["params"]):
+                    continue
+                c["stream"] = "small-scope"
+                yield c
+                break
+    # the inverted models (built-in efjc_force / twlc_force and Model.invert() of every distance model) at the default
+    # thermal energy and away from it: kT reaches the forward value, the forward Jacobian and the forward derivative
+    # through separate arguments
+    for t in [["efjc_f", "ss"], ["twlc_f", "DNA"]] + [["inv", ["base", k, "DNA"]] for k in dist]:
+        for skT in kts:
+            for attempt in range(4):
+                c = gen_tree_case(r0.fork("kT" + repr(t) + f"{skT}.{attempt}"), tree=t, kT=DEFAULTS["kT"] * skT)
+                if c is None or not valid_everywhere(t, c["x"], c["params"]):
+                    continue
+                c["stream"] = "small-scope"
+                yield c
+                break
+    # the same compositions of the twistable model with the abscissa placed so that the leaf is evaluated exactly on
+    # its regime boundary f == Fc (through the offsets)
+    kink_trees = [
+        ["off", ["base", "twlc_d", "DNA"]],
+        ["off", ["off", ["base", "twlc_d", "DNA"]]],
+        ["add", ["base", "twlc_d", "DNA"], ["base", "offset_d", "o"]],
+        ["add", ["base", "twlc_d", "DNA"], ["base", "efjc_d", "ss"]],
+        ["add", ["off", ["base", "twlc_d", "DNA"]], ["base", "odijk_d", "prot"]],
+        ["add", ["base", "twlc_d", "DNA"], ["base", "twlc_d", "prot"]],
+    ]
+    for t in kink_trees:
+        for j in range(2 * reps):
+            for attempt in range(4):
+                c = gen_tree_case(r0.fork("kink" + repr(t) + f"{j}.{attempt}"), tree=t, kink=True)
+                if c is None or not valid_everywhere(t, c["x"], c["params"]):
+                    continue
+                c["stream"] = "small-scope"
+                yield c
+                break
 
     # ---- small scope of fit layouts: every way 1-3 data sets of a model can share conditions (in every order of
     #      appearance), x how the conditions differ, x blocks of equal / different lengths; then two-model fits
@@ -1543,14 +1721,20 @@ def cases(tier, rng):
                     if max(pat) == 0 and styles[0] == "id" and styles != SCOPE_STYLES[0]:
                         continue  # a single untransformed condition: the style of the others does not matter
                     for prof in profiles:
-                        layouts.append(([t], [pat], styles, prof))
+                        layouts.append(([t], [pat], styles, prof, False))
+    # fits of the twistable model in which every data set has one sample exactly on the regime boundary f == Fc (Fc
+    # untransformed, renamed, pinned)
+    for t in (["base", "twlc_d", "DNA"], ["add", ["off", ["base", "twlc_d", "DNA"]], ["base", "offset_d", "o"]]):
+        for pat in ([0], [0, 1], [0, 1, 0]):
+            for styles in SCOPE_STYLES + [("id", "pinFc"), ("renameFc", "rename")]:
+                layouts.append(([t], [pat], styles, [2, 1, 3], True))
     two = [["base", "odijk_d", "DNA"], ["base", "odijk_f", "prot"]]
     for pats in ([[0, 1, 0], [0, 1, 0]], [[0, 1], [0, 1, 0]], [[0, 1, 0], [0]], [[0, 0, 1], [0, 1, 1]]):
         for styles in SCOPE_STYLES:
-            layouts.append((two, pats, styles, [2, 1, 3, 1, 2]))
-    for li, (ts, pats, styles, prof) in enumerate(layouts):
+            layouts.append((two, pats, styles, [2, 1, 3, 1, 2], False))
+    for li, (ts, pats, styles, prof, kink) in enumerate(layouts):
         for attempt in range(5):
-            c = scope_fit_case(rf.fork(f"{li}.{attempt}"), ts, pats, styles, prof)
+            c = scope_fit_case(rf.fork(f"{li}.{attempt}"), ts, pats, styles, prof, kink=kink)
             if c is not None:
                 c["stream"] = "small-scope"
                 yield c
@@ -1615,8 +1799,25 @@ def extra_coverage(results):
     kinds, branches, skipped, fit_layout = {}, {}, {}, {"datasets": {}, "models": {}, "dup_global_in_dataset": 0, "pinned": 0, "renamed": 0,
                                                 "condition_patterns": {}, "shared_condition_not_contiguous": 0}
     tree_shapes = {"add": 0, "off": 0, "inv": 0}
+    boundary = {"base": 0, "tree": 0, "fit": 0}  # cases with a sample exactly on f == Fc of a twistable leaf
+    kt_off_default = {}  # per kind: cases whose kT differs from the default 4.11
     for r in results:
         c = r["case"]
+        try:
+            if c["op"] == "base" and c["kind"] == "twlc_d" and c.get("stream") != "malformed" and c["x"] == c["p"][6]:
+                boundary["base"] += 1
+            if c["op"] == "tree" and on_kink(c["tree"], c["x"], c["params"]):
+                boundary["tree"] += 1
+            if c["op"] == "fit" and fit_on_kink(c):
+                boundary["fit"] += 1
+            if c["op"] == "base" and "kT" in KINDS[c["kind"]][2] and c.get("stream") != "malformed":
+                if c["p"][KINDS[c["kind"]][2].index("kT")] != DEFAULTS["kT"]:
+                    kt_off_default[c["kind"]] = kt_off_default.get(c["kind"], 0) + 1
+            if c["op"] == "tree" and c["params"].get("kT", DEFAULTS["kT"]) != DEFAULTS["kT"]:
+                for key in {"inv" if l_ == "inv" else l_ for l_ in ("efjc_f", "twlc_f", "inv") if f"'{l_}'" in repr(c["tree"])}:
+                    kt_off_default[key] = kt_off_default.get(key, 0) + 1
+        except Exception:
+            pass
         key = c["op"] + ("/" + c["kind"] if "kind" in c else "")
         kinds[key] = kinds.get(key, 0) + 1
         for s in c.get("_skipped", []):
@@ -1653,8 +1854,10 @@ def extra_coverage(results):
         "cubic_branch_legend": "C = Cardano chain rule (det > 0), T = trigonometric (det <= 0); R = inside the regularised band, N = outside; '-' = closed form",
         "oracle_derivative_entries": {"compared_or_abstained": JUDGED[0], "abstained_not_converged": JUDGED[1]},
         "oracle_abstentions": skipped,
-        "oracle_abstention_note": "the numerical derivative is used only when its Richardson table converges (error estimate < 1e-7 of the value); entries where it does not (kink of the twistable model, regularised band, non-finite values) are dropped from the oracle, not from the model comparison",
+        "oracle_abstention_note": "the numerical derivative is used only when its Richardson table converges (error estimate < 1e-7 of the value) and the left and right difference quotients agree; entries where it does not (kink of the twistable model, regularised band, non-finite values) are dropped from the oracle, not from the model comparison",
         "tree_shapes": tree_shapes,
+        "samples_exactly_on_twlc_regime_boundary": boundary,
+        "cases_with_kT_off_default": kt_off_default,
         "fit_layouts": fit_layout,
         "exhaustive": False,
     }
@@ -1662,11 +1865,14 @@ def extra_coverage(results):
 
 RULE = (
     "corpus (F9 inputs) + small scope (every built-in model on a grid of 7 abscissas x parameter corners: L_p, S_t "
-    "x{0.5,1,1.5}, L_c in {0.3,2.7,16,30}; every pairwise sum, the offset of every model, the inverse of every distance "
-    "model, nested examples) + raw cubics (a, b, c) built from chosen roots (three real roots = trigonometric branch, "
+    "x{0.5,1,1.5}, kT x{0.92,1,1.3}, L_c in {0.3,2.7,16,30}; the twistable model additionally exactly ON its regime "
+    "boundary f == F_c, one ulp and 1e-9 to either side; every pairwise sum, the offset of every model, the inverse of "
+    "every distance model, efjc_force and twlc_force alone and in sums, each inverted model at the default kT and away "
+    "from it, nested examples; compositions and fits of the twistable model with a sample placed exactly on f == F_c "
+    "through the offsets) + raw cubics (a, b, c) built from chosen roots (three real roots = trigonometric branch, "
     "one real root = Cardano branch; scale 0.1-1000; all three root indices) + seeded random over the property's box (parameters +-50 % of the defaults, twist "
-    "parameters +-10 %, L_c 0.3-30 um log-uniform, forces 0.05 pN .. 80 % of the validity limit, distances obtained "
-    "from such forces; random compositions of depth <= 3 with up to 6 leaves; fit layouts with 1-2 models, 1-3 data "
+    "parameters +-10 %, L_c 0.3-30 um log-uniform, forces 0.05 pN .. 80 % of the validity limit (twistable model: a fifth of the forces on / one ulp beside / "
+    "within 1e-12..1e-2 of F_c), distances obtained from such forces; random compositions of depth <= 3 with up to 6 leaves; fit layouts with 1-2 models, 1-3 data "
     "sets each, 1-3 points, parameters renamed per data set / shared across data sets / merged inside a data set / "
     "pinned to numbers; half of the layouts draw the condition-sharing pattern of the data sets first and one "
     "transformation per condition) + small scope of fit layouts (every way 1-3 data sets of a model share conditions, "
@@ -1682,7 +1888,10 @@ TRUSTED = [
     "np.abs(t)**(2/3) of calc_first_root is modelled as cbrt(|t|)^2; x**(-2) as 1/(x*x); x**3 as x*x*x",
     "the numerical inversions (scipy least_squares) are not modelled: the value F they return is an input of the model's "
     "inversion rule",
-    "oracle: Richardson-extrapolated central differences in double precision, accepted only when converged",
+    "oracle: Richardson-extrapolated central differences in double precision, accepted only when converged AND the "
+    "one-sided difference quotients agree (jump_estimate): on a regime boundary (f == F_c of the twistable model) only "
+    "the directions in which the model is differentiable are judged (not F_c, not d/df, not parameters that move the "
+    "force at which the leaf is evaluated); the model correspondence compares every entry there too",
 ]
 ASSUMPTIONS = [
     "positive parameters (hypotheses of the HasDerivAt theorems); d < L_c for the inextensible Marko-Siggia force",
